@@ -133,10 +133,35 @@ def doNd (l : Line) : Option String := do
       some s!"ok r={dump (divergence den (tbl m p) shape ndim c dx (fun a => arrs.getD a (fun _ => 0)))}"
   | "lap" =>
     if arrs.length ≠ 1 then none
+    if Gen.FiniteDiff.lapRejected.contains p then some "err:value" else
     match (axesErr .forward (List.range ndim)).orElse (fun _ => axesErr .backward (List.range ndim)) with
     | some e => some (errStr e)
     | none =>
       some s!"ok r={dump (laplacian den (tbl .forward p) (tbl .backward p) shape ndim c dx (arrs.getD 0 (fun _ => 0)))}"
+  | _ => none
+
+def kindOf : String → Option Kind
+  | "pd" => some .pd | "grad" => some .grad | "div" => some .div | "lap" => some .lap | _ => none
+def kindStr : Kind → String
+  | .pd => "pd" | .grad => "grad" | .div => "div" | .lap => "lap"
+
+/-- `cfg act=adjoint|derivative kind= method= pad= c=` → the instance the code returns:
+`ok neg=0|1 kind= method= pad= c=`, or `err:value`. -/
+def doCfg (l : Line) : Option String := do
+  let act ← l.get? "act"
+  let kind ← l.get? "kind" >>= kindOf
+  let m ← method? l "method"
+  let p ← pad? l "pad"
+  let c ← l.crat? "c"
+  let o : Op CRat := ⟨kind, m, p, c, false⟩
+  let show' (r : Op CRat) :=
+    s!"ok neg={if r.neg then 1 else 0} kind={kindStr r.kind} method={methodStr r.method} pad={padStr r.pad} c={r.c.str}"
+  match act with
+  | "adjoint" =>
+    match o.adjoint Gen.FiniteDiff.adjMethod Gen.FiniteDiff.adjPad with
+    | some r => some (show' r)
+    | none => some "err:value"
+  | "derivative" => some (show' o.derivative)
   | _ => none
 
 /-- `tables` → the generated lists and dictionaries, for comparison with the live module. -/
@@ -156,6 +181,7 @@ def handle (l : Line) : Option String :=
   | "mat" => doMat l
   | "nd" => doNd l
   | "tables" => doTables l
+  | "cfg" => doCfg l
   | _ => none
 
 def main : IO Unit := driverLoop handle
